@@ -416,6 +416,19 @@ class C06(PropertyCheck):
                     impl.append(("vals", [Fd[v], fcd.df_num] + fe[:, v].tolist() + fcvd[:, :, 0].ravel().tolist(),
                                  [tolF, 0] + [1e-13 * float(u.max()) + 1e-300] * q + [tolc] * (q * q)))
                     if fail is None:
+                        # the result is coherent with the dispersion that was asked for: its covariance is
+                        # d * M (X'X)^-1 M', and F is the quadratic form of the effect in that covariance
+                        Cd = fcvd[:, :, 0]
+                        want = d * (M @ cov @ M.T)
+                        if np.abs(Cd - want).max() > 1e-9 * max(1e-300, float(np.abs(want).max())) * max(1.0, condV):
+                            fail = (f"Fcontrast(dispersion={d}): reported covariance {Cd.tolist()} is not "
+                                    f"dispersion * M (X'X)^-1 M' = {want.tolist()}")
+                        elif d > 0 and np.linalg.cond(want) < 1e8:
+                            Qf = float(fe[:, v] @ np.linalg.solve(Cd, fe[:, v])) / q
+                            if not _close(Fd[v], Qf, 1e-7 * max(1.0, condV)):
+                                fail = (f"Fcontrast(dispersion={d}) reports F={Fd[v]!r} but effect' inv(covariance) "
+                                        f"effect / df_num = {Qf!r} (voxel {v})")
+                    if fail is None:
                         if not _close(F1d[v], td[v] ** 2, 1e-8 * max(1.0, condV)):
                             fail = f"dispersion={d}: one-row Fcontrast F={F1d[v]!r} but t^2={td[v] ** 2!r} (voxel {v})"
                         elif not _close(Fiv[v], F[v], 1e-9 * condV):
